@@ -8,6 +8,9 @@ import "evylang.dev/evy/pkg/zzseam"
 // SetChooser installs (or removes, with nil) the map-order chooser.
 func SetChooser(f func(n int, site string) int) { zzseam.Chooser = f }
 
+// SetOrderHook installs (or removes, with nil) the per-range order hook.
+func SetOrderHook(f func(n int, site string) []int) { zzseam.OrderHook = f }
+
 // CountHits enables per-site hit counting and returns the hit map.
 func CountHits(on bool) map[string]int { zzseam.CountHits = on; return zzseam.Hits }
 
